@@ -129,17 +129,11 @@ pub mod io {
         }
     }
     pub const MODEL_RESERVE: usize = 384;
+    // opt-in (whole-login experiments only): see DESIGN §1.13
+    global!(MODEL_RESERVE_ON, set_model_reserve, model_reserve, bool, false);
     impl AsyncWrite for Vec<u8> {
         fn poll_write(self: Pin<&mut Self>, _cx: &mut Context<'_>, b: &[u8]) -> Poll<Result<usize>> {
             let me = self.get_mut();
-            if me.len() + b.len() > me.capacity() {
-                // grow by element-wise copy into a fresh fixed-size allocation instead of realloc (memcpy): keeps
-                // path-wise concrete bytes concrete for CBMC (see read_to_end)
-                let mut nv: Vec<u8> = Vec::with_capacity(if me.len() + b.len() > MODEL_RESERVE { 2 * (me.len() + b.len()) } else { MODEL_RESERVE });
-                let mut k = 0;
-                while k < me.len() { nv.push(me[k]); k += 1; }
-                *me = nv;
-            }
             let mut i = 0;
             while i < b.len() { me.push(b[i]); i += 1; }
             Poll::Ready(Ok(b.len()))
@@ -216,7 +210,7 @@ pub mod io {
             let mut total = 0;
             // one allocation of a fixed size instead of amortised regrowth: a realloc copies through memcpy, after
             // which CBMC no longer knows the (path-wise concrete) byte values
-            if out.capacity() < MODEL_RESERVE { out.reserve(MODEL_RESERVE); }
+            if model_reserve() && out.is_empty() && out.capacity() < MODEL_RESERVE { *out = Vec::with_capacity(MODEL_RESERVE); }
             loop {
                 let mut one = [0u8; 1];
                 let mut rb = ReadBuf::new(&mut one);
